@@ -1156,11 +1156,169 @@ def _canonical_fields(j):
     j['fields_renamed'] = len(ren)
 
 
+def _second_chance(facts):
+    """Vocabulary functions still missing after the cheap rename matching, and vocabulary functions whose parameter types
+    were permuted ambiguously: recognise them by their path-summary fingerprint (rules/vocab_sums.json). Returns
+    (renames {new: vocab}, perms {path: [current position -> reference position]})."""
+    base = os.path.join(os.path.dirname(os.path.dirname(os.path.abspath(__file__))), 'rules')
+    try:
+        vocab = set(l.rstrip('\n') for l in open(os.path.join(base, 'vocab.txt')))
+        sums = json.load(open(os.path.join(base, 'vocab_sums.json')))
+        sigs = json.load(open(os.path.join(base, 'vocab_sigs.json')))
+        refp = json.load(open(os.path.join(base, 'vocab_params.json')))
+    except Exception:
+        return {}, {}
+    from .sym import fn_summary_key
+    import itertools
+    have = facts.bodies
+    gone = [p for p in vocab if p not in have and '{closure' not in p and p in sums]
+    new = [p for p in have if p not in vocab and '{closure' not in p and have[p].j.get('kind') != 'Closure']
+    renames, perms = {}, {}
+
+    def perms_for(cur_t, ref_t):
+        if sorted(cur_t) != sorted(ref_t) or len(cur_t) > 5:
+            return []
+        out = []
+        for pm in itertools.permutations(range(len(cur_t))):
+            if all(cur_t[i] == ref_t[pm[i]] for i in range(len(cur_t))):
+                out.append(list(pm))
+        return out
+    for g in gone:
+        sg = sigs.get(g)
+        if sg is None:
+            continue
+        hits = []
+        for n in new:
+            b = have[n]
+            if n in renames or b.j.get('output') != sg[1] or sorted(b.j.get('inputs') or []) != sorted(sg[0]):
+                continue
+            if n.split('::')[0] != g.split('::')[0]:
+                continue
+            cur_t = [b.locals[i + 1]['ty'] for i in range(b.j['arg_count'])]
+            for pm in perms_for(cur_t, [ty for nm, ty in refp.get(g, [])]):
+                if fn_summary_key(facts, b, pm) == sums[g]:
+                    hits.append((n, pm))
+        if len(hits) == 1:
+            renames[hits[0][0]] = g
+            if hits[0][1] != list(range(len(hits[0][1]))):
+                perms[g] = hits[0][1]
+    # same name, ambiguous permutation of equally typed parameters
+    for p, b in have.items():
+        r = refp.get(p)
+        if r is None or p not in sums or len(r) != b.j['arg_count'] or len(r) < 2:
+            continue
+        cur_t = [b.locals[i + 1]['ty'] for i in range(len(r))]
+        ref_t = [ty for nm, ty in r]
+        if len(set(ref_t)) == len(ref_t):
+            continue
+        cur_n = [(b.locals[i + 1]['names'] or [None])[0] for i in range(len(r))]
+        if cur_t == ref_t and cur_n == [nm for nm, ty in r]:
+            continue
+        cands = [pm for pm in perms_for(cur_t, ref_t) if fn_summary_key(facts, b, pm) == sums[p]]
+        if len(cands) == 1 and cands[0] != list(range(len(r))):
+            perms[p] = cands[0]
+    return renames, perms
+
+
+def _apply_param_perms(j, perms):
+    """like _canonical_param_order, for explicitly given permutations"""
+    if not perms:
+        return
+    for b in j['bodies']:
+        perm = perms.get(b['path'])
+        if perm is None:
+            continue
+        n = len(perm)
+        m = {i + 1: perm[i] + 1 for i in range(n)}
+
+        def fl(l):
+            return m.get(l, l)
+
+        def fix_place(p):
+            p['l'] = fl(p['l'])
+            for pr in p.get('pr', []):
+                if isinstance(pr, dict) and 'idx' in pr:
+                    pr['idx'] = fl(pr['idx'])
+
+        def fix_op(o):
+            if isinstance(o, dict) and o.get('k') in ('copy', 'move'):
+                fix_place(o['p'])
+        newl = list(b['locals'])
+        for i in range(n):
+            newl[perm[i] + 1] = b['locals'][i + 1]
+        b['locals'] = newl
+        if b.get('inputs') and len(b['inputs']) == n:
+            ni = list(b['inputs'])
+            for i in range(n):
+                ni[perm[i]] = b['inputs'][i]
+            b['inputs'] = ni
+        for blk in b['blocks']:
+            for st in blk['stmts']:
+                if st['k'] == 'assign':
+                    fix_place(st['p'])
+                    r0 = st['r']
+                    for key in ('a', 'b'):
+                        if isinstance(r0.get(key), dict):
+                            fix_op(r0[key])
+                    if isinstance(r0.get('p'), dict):
+                        fix_place(r0['p'])
+                    for o in r0.get('ops', []) or []:
+                        fix_op(o)
+                elif st['k'] == 'setdiscr':
+                    fix_place(st['p'])
+            t = blk['term']
+            if t['k'] == 'call':
+                for a in t['args']:
+                    fix_op(a)
+                fix_place(t['dest'])
+                if 'indirect' in t['callee']:
+                    fix_op(t['callee']['indirect'])
+            elif t['k'] == 'switch':
+                fix_op(t['discr'])
+            elif t['k'] == 'drop':
+                fix_place(t['p'])
+            elif t['k'] == 'assert':
+                fix_op(t['cond'])
+                for key in ('len', 'index'):
+                    if key in t:
+                        fix_op(t[key])
+    for b in j['bodies']:
+        for blk in b['blocks']:
+            t = blk['term']
+            if t['k'] != 'call':
+                continue
+            c = t['callee']
+            tgt = c.get('resolved') if c.get('resolved') in perms else (c.get('path') if c.get('path') in perms and not c.get('trait') else None)
+            if tgt is None or len(t['args']) != len(perms[tgt]):
+                continue
+            perm = perms[tgt]
+            na = list(t['args'])
+            for i in range(len(perm)):
+                na[perm[i]] = t['args'][i]
+            t['args'] = na
+
+
 class Facts:
     def __init__(self, path):
         self.j = json.load(open(path))
         _apply_renames(self.j, _rename_map(self.j))
         _canonical_param_order(self.j)
+        self.bodies = {}
+        for b in self.j['bodies']:
+            self.bodies[b['path']] = Body(b, self)
+        self.adts = {a['path']: a for a in self.j['adts']}
+        self.traits = {}
+        self.consts = {c['path']: c for c in self.j['consts']}
+        ren, perms = {}, {}
+        try:
+            ren, perms = _second_chance(self)
+        except Exception:
+            ren, perms = {}, {}
+        if ren or perms:
+            _apply_renames(self.j, ren)
+            _apply_param_perms(self.j, perms)
+            self.j.setdefault('renamed', {}).update(ren)
+        self.__dict__.pop('_getters', None)
         _canonical_params(self.j)
         _canonical_fields(self.j)
         self.bodies = {}
